@@ -92,13 +92,14 @@ def gen_results(rng):
     return res
 
 
-def gen_proto(rng, maxargs=20):
+def gen_proto(rng, maxargs=20, min_fixed=0):
     style = rng.choice(['int', 'fp', 'blk', 'ld', 'mix', 'mix'])
     n = rng.choice([0, 1, 2, 3, 5, 6, 7, 8, 9, 10, 12, 14, 17, maxargs])
     vararg = rng.random() < 0.35
     nfixed = n
     if vararg:
-        nfixed = rng.randint(0, n)
+        n = max(n, min_fixed)
+        nfixed = rng.randint(min_fixed, n)
     args = []
     for i in range(n):
         args.append(gen_arg_type(rng, style, tail=i >= nfixed))
@@ -106,6 +107,8 @@ def gen_proto(rng, maxargs=20):
     while sum(slot_size(a) for a in args) > 600:
         args.pop()
         nfixed = min(nfixed, len(args))
+    if vararg and nfixed < min_fixed:
+        vararg = False
     return dict(args=args, nfixed=nfixed, vararg=vararg, res=gen_results(rng), style=style)
 
 
